@@ -97,8 +97,14 @@ Pre(g0, e) ==
       al  == IF Has(e, "al") THEN SeqSet(e.al) ELSE g.alive
       new == al \ g.C
       n   == Card(g.C)
+      (* the lock changes hands only through lock(), unlock() and a gather_and_close() (which locks for good) *)
+      gacSeen == \E h \in DOMAIN g.H : g.H[h].kind = "gac"
+      lkOk == \/ g.void \/ e.o[5] = g.lastO[5]
+              \/ (e.e = "op" /\ e.name \in {"lock", "unlock"})
+              \/ (e.o[5] = 1 /\ (gacSeen \/ (e.e = "op" /\ e.name = "hstart") \/ e.e = "hbegin"))
       vs  == Chk("C11.dense", -1, new = {} \/ new = n .. (n + Card(new) - 1))
              \cup Chk("C11.reuse", -1, (al \cap g.C) \subseteq g.alive /\ ~Has(e, "dupobj"))
+             \cup Chk("C09.lock", -1, lkOk)
       T2  == [id \in (DOMAIN g.T) \cup new |-> IF id \in DOMAIN g.T THEN g.T[id] ELSE NewT(g.pos)]
   IN Out([g EXCEPT !.C = @ \cup new, !.prevAlive = g.alive, !.alive = al, !.T = T2], vs,
          Hit("C11.dense", new # {}) \cup Hit("C11.afterflush", new # {} /\ g.forgot # {})
